@@ -2802,23 +2802,7 @@ func (p *Posix) PutObject(ctx context.Context, po s3response.PutObjectInput) (s3
 		return s3response.PutObjectOutput{}, s3err.GetAPIError(s3err.ErrExistingObjectIsDirectory)
 	}
 
-	// if the versioninng is enabled first create the file object version
-	if p.versioningEnabled() && vStatus != "" && err == nil {
-		var isVersionIdMissing bool
-		if p.isBucketVersioningSuspended(vStatus) {
-			vIdBytes, err := p.meta.RetrieveAttribute(nil, *po.Bucket, *po.Key, versionIdKey)
-			if err != nil && !errors.Is(err, meta.ErrNoSuchKey) {
-				return s3response.PutObjectOutput{}, fmt.Errorf("get object versionId: %w", err)
-			}
-			isVersionIdMissing = len(vIdBytes) == 0
-		}
-		if !isVersionIdMissing {
-			_, err := p.createObjVersion(*po.Bucket, *po.Key, d.Size(), acct)
-			if err != nil {
-				return s3response.PutObjectOutput{}, fmt.Errorf("create object version: %w", err)
-			}
-		}
-	}
+	objExists := err == nil
 	if errors.Is(err, syscall.ENAMETOOLONG) {
 		return s3response.PutObjectOutput{}, s3err.GetAPIError(s3err.ErrKeyTooLong)
 	}
@@ -2886,6 +2870,28 @@ func (p *Posix) PutObject(ctx context.Context, po s3response.PutObjectInput) (s3
 		// fewer bytes than declared were received: do not commit a
 		// short (and zero padded) object
 		return s3response.PutObjectOutput{}, s3err.GetAPIError(s3err.ErrIncompleteBody)
+	}
+
+	// if the versioning is enabled create the file object version of
+	// the existing object. This is done only now that the new data was
+	// received completely (the readers have verified its integrity and
+	// the request signature by then): a refused upload must not leave a
+	// version behind
+	if p.versioningEnabled() && vStatus != "" && objExists {
+		var isVersionIdMissing bool
+		if p.isBucketVersioningSuspended(vStatus) {
+			vIdBytes, err := p.meta.RetrieveAttribute(nil, *po.Bucket, *po.Key, versionIdKey)
+			if err != nil && !errors.Is(err, meta.ErrNoSuchKey) {
+				return s3response.PutObjectOutput{}, fmt.Errorf("get object versionId: %w", err)
+			}
+			isVersionIdMissing = len(vIdBytes) == 0
+		}
+		if !isVersionIdMissing {
+			_, err := p.createObjVersion(*po.Bucket, *po.Key, d.Size(), acct)
+			if err != nil {
+				return s3response.PutObjectOutput{}, fmt.Errorf("create object version: %w", err)
+			}
+		}
 	}
 
 	verifhook.Point("put.afterData")
